@@ -527,10 +527,17 @@ func (l *IPFSLog) Join(otherLog iface.IPFSLog, size int) (iface.IPFSLog, error) 
 		return l, nil
 	}
 
+	// Read the other log before taking our own lock, so that two logs joining
+	// each other concurrently never wait for each other's lock. Heads are read
+	// once and before the entries: the entries of an append-only log read later
+	// always contain the history of heads read earlier.
+	otherHeads := otherLog.RawHeads()
+	otherEntries := otherLog.GetEntries()
+
 	l.lock.Lock()
 	defer l.lock.Unlock()
 
-	newItems := difference(otherLog.GetEntries(), otherLog.RawHeads().Slice(), l)
+	newItems := difference(otherEntries, otherHeads.Slice(), l)
 
 	wg := &sync.WaitGroup{}
 	wg.Add(newItems.Len())
@@ -588,7 +595,7 @@ func (l *IPFSLog) Join(otherLog iface.IPFSLog, size int) (iface.IPFSLog, error) 
 		}
 	}
 
-	mergedHeads := entry.FindHeads(l.heads.Merge(otherLog.RawHeads()))
+	mergedHeads := entry.FindHeads(l.heads.Merge(otherHeads))
 
 	for idx, e := range mergedHeads {
 		// notReferencedByNewItems
